@@ -47,20 +47,20 @@ TEXT = {
     ),
     "C09": dict(
         technique="property-based testing (rapid arrival patterns) on a virtual clock; deadline windows as oracle",
-        level_text="Exploration: silence / late / answered / steady inbound patterns for N in 1..120; the monitor recomputes from the inbound instants when a TestRequest must and must not be sent and when the disconnect event and handler stop must and must not happen, with windows [T, T+T/10]; in a fifth of the non-steady histories an application outgoing handler refuses every TestRequest (the attempts take the probes' place: a peer silent for a second period is disconnected all the same); for the acceptor a quarter of the histories run the pattern in a second logon on the same connection.",
+        level_text="Exploration: silence / late / answered / steady inbound patterns for N in 1..120; the monitor recomputes from the inbound instants when a TestRequest must and must not be sent and when the disconnect event and handler stop must and must not happen, with windows [T, T+T/10]; in a fifth of the non-steady histories an application outgoing handler refuses every TestRequest (the attempts take the probes' place: a peer silent for a second period is disconnected all the same); for the acceptor a quarter of the histories run the pattern in a second logon on the same connection, and a sixth continue after an answered Logout with the connection left open.",
         level_note="Trusted: synctest's virtual time. Socket closing is observed in C13's full rig, not here.",
         design_ref="DESIGN.md section 4, C09",
     ),
     "C10": dict(
         technique="stateful property-based testing (rapid): recorded first transmissions as reference model for retransmissions; small-number enumeration of (stored, received) Logon sequence numbers",
-        level_text="Exploration: outbound prefixes of mixed administrative and application messages followed by ResendRequests over all range classes; emitted retransmissions are compared byte for byte with the recorded first transmission of the same number, must lie in the requested range and must be complete for ranges inside the sent range (e=0: through the last). A second engine checks the gap ResendRequest on Logon for (c,r) pairs against a preset counter store, a third one lets a real earlier logon (traffic while probing, local or peer logout, or a dropped connection) leave the expected number behind and then logs on again on the same connection or as a new session on the same stores. Engine 1 also runs with an application handler that stamps messages and with a message store that keeps messages per StorageID identity.",
+        level_text="Exploration: outbound prefixes of mixed administrative and application messages followed by ResendRequests over all range classes; emitted retransmissions are compared byte for byte with the recorded first transmission of the same number, must lie in the requested range and must be complete for ranges inside the sent range (e=0: through the last). A second engine checks the gap ResendRequest on Logon for (c,r) pairs against a preset counter store, a third one lets a real earlier logon (traffic while probing, local or peer logout, or a dropped connection) leave the expected number behind and then logs on again on the same connection or as a new session on the same stores. Engine 1 also runs with an application handler that stamps messages, with a message store that keeps messages per StorageID identity, and on stores re-used after a counter reset.",
         level_note="Trusted: synctest and the recorder. Known finding resend-wrong:reused-object (application reuses a message object) is reported as KNOWN-FINDING; all other mismatches are violations.",
         design_ref="DESIGN.md section 4, C10",
     ),
     "C11": dict(
         technique="property-based fuzzing (rapid): unstructured and structure-aware hostile inputs, framed by an independent assembler so that they pass the integrity check; oracle: returns without panic within a watchdog",
         level_text="Exploration: raw byte strings of eight classes and correctly framed hostile token lists (random, and near-valid populations with token-level damage) are parsed into generated nested-group templates and every tests/fix44 type by both entry points, and looked up with fix.ValueByTag, with slices presented capacity-clamped and as prefixes of larger buffers.",
-        level_note="Trusted: recover() observes every panic on the calling goroutine; a 60 s per-call watchdog defines 'hang'. The session engine hands correctly framed admin messages with token-level damage and extreme numbers (MinInt64..MaxUint64, signs, leading zeros, exponents) to a running session in every state reached by well-formed traffic and local Logout()/Send() calls in between; the transport engine feeds hostile chunks through the real Acceptor.",
+        level_note="Trusted: recover() observes every panic on the calling goroutine; a 60 s per-call watchdog defines 'hang'. The session engine hands correctly framed admin messages with token-level damage and extreme numbers (MinInt64..MaxUint64, signs, leading zeros, exponents) to a running session in every state reached by well-formed traffic and local Logout()/Send() calls in between; the transport engine feeds hostile chunks through the real Acceptor and Initiator and requires the serving call to return afterwards.",
         design_ref="DESIGN.md section 4, C11",
     ),
     "C14": dict(
@@ -71,7 +71,7 @@ TEXT = {
     ),
     "C15": dict(
         technique="property-based testing (rapid) on a virtual clock: Logout counts and the exact instant of context cancellation",
-        level_text="Exploration: peer logout, local logout + answer, and Stop with close timeout {0,1ms,1s,30s} x answer {never, immediately, half, just before, after the deadline} with traffic in between; the cancellation instant is compared to the nanosecond with min(answer, deadline). A quarter of the local endings come while the session's own TestRequest is unanswered (peer silent for N+tolerance); between a local Logout()/Stop() and the answer the peer may ask for a resend of everything, which must not bring the Logout out again.",
+        level_text="Exploration: peer logout, local logout + answer, and Stop with close timeout {0,1ms,1s,30s} x answer {never, immediately, half, just before, after the deadline} with traffic in between; the cancellation instant is compared to the nanosecond with min(answer, deadline). A quarter of the local endings come while the session's own TestRequest is unanswered (peer silent for N+tolerance); between a local Logout()/Stop() and the answer the peer may ask for a resend of everything, which must not bring the Logout out again; a Stop() whose Logout is refused by an application handler still ends at the deadline, and a peer Logout is answered although the counter store fails.",
         level_note="Trusted: synctest's virtual time; intervals >= 40 s keep the session timers out of these histories.",
         design_ref="DESIGN.md section 4, C15",
     ),
@@ -89,19 +89,19 @@ TEXT = {
     ),
     "C19": dict(
         technique="stateful property-based testing with fault injection (rapid): recording/failing store and handlers; invariants over a globally ordered event log",
-        level_text="Exploration: generated handler sets (order, type, refusal pattern, registered before/after the session) and store failures; per message: Save-before-wire, handler order, stop at refusal, bytes seen = bytes sent, the field a later handler reads from the object = the field on the wire (handlers modify header or, in place, body fields), Send's error result; per inbound message: all-types then own-type handlers in registration order. A second engine builds an inbound backlog behind a slow application handler and ends the handler by Stop(), the connection-closed error or the teardown: every accepted message is still offered once, in order. The application may remove one of its own handlers in mid-history (all others, the session's included, must go on), and every Save must be made under the identity the saved message itself carries.",
+        level_text="Exploration: generated handler sets (order, type, refusal pattern, registered before/after the session) and store failures; per message: Save-before-wire, handler order, stop at refusal, bytes seen = bytes sent, the field a later handler reads from the object = the field on the wire (handlers modify header or, in place, body fields), Send's error result; per inbound message: all-types then own-type handlers in registration order. A second engine builds an inbound backlog behind a slow application handler and ends the handler by Stop(), the connection-closed error or the teardown: every accepted message is still offered once, in order. The application may remove one of its own handlers in mid-history (all others, the session's included, must go on), and every Save must be made under the identity the saved message itself carries. Incoming handlers may refuse (the other section is still offered), one message object may be sent repeatedly while the peer is not reading, and the store's final content is compared with what was transmitted (also on stores re-used after a counter reset).",
         level_note="Trusted: the event log's global order (one mutex) and synctest. Incoming handlers always accept.",
         design_ref="DESIGN.md section 4, C19",
     ),
     "C04": dict(
         technique="property-based testing (rapid) of the real Acceptor/Initiator over a scripted in-memory net.Conn: generated read partitions, timings, connection counts and concurrent senders; sent-list = delivered-list oracle",
-        level_text="Exploration: message streams are cut by generated partitions (one byte per read, cuts inside the CheckSum tag, everything coalesced, chunks > 4096) and fed to 1-4 simultaneous connections with generated virtual delays; the per-connection incoming handler must receive exactly the sent messages (count, order, bytes, one at a time, no cross-talk); concurrently 0-6 goroutines hand messages to Send/SendBatch/SendRaw and the captured outbound stream must split into exactly those messages in hand-off order. The acceptor's new-client callback may take virtual time while the peer's first bytes are already arriving, and the scripted connection honours read deadlines as a socket does. A connection may carry a second subscriber that the application removes in mid-stream (the first must go on receiving), and deliveries are also counted while all connections are still open.",
+        level_text="Exploration: message streams are cut by generated partitions (one byte per read, cuts inside the CheckSum tag, everything coalesced, chunks > 4096) and fed to 1-4 simultaneous connections with generated virtual delays; the per-connection incoming handler must receive exactly the sent messages (count, order, bytes, one at a time, no cross-talk); concurrently 0-6 goroutines hand messages to Send/SendBatch/SendRaw and the captured outbound stream must split into exactly those messages in hand-off order. The acceptor's new-client callback may take virtual time while the peer's first bytes are already arriving, and the scripted connection honours read deadlines as a socket does. A connection may carry a second subscriber that the application removes in mid-stream (the first must go on receiving), and deliveries are also counted while all connections are still open; the recorder may subscribe per type behind a refusing all-types subscriber, and one message object may be sent twice (changed in between) while the peer is not reading.",
         level_note="Trusted: netsim (own tests: bytes fed = bytes read for any chunking; deadline semantics), harness/ref.Split, synctest.",
         design_ref="DESIGN.md section 4, C04",
     ),
     "C05": dict(
         technique="property-based testing (rapid) of concurrent senders against the real session over netsim, with scheduler yields injected inside store/handler call-outs and runs at GOMAXPROCS 16/4/2/1; wire-numbering invariant on independently tokenized captured bytes",
-        level_text="Exploration: 1-8 goroutines x 1-12 sends with generated virtual delays interleave with timer heartbeats, TestRequest answers and Rejects; the injected stores and an outgoing handler yield the processor a generated number of times per call so that a missing critical section reorders numbers on the wire; 1-3 successive sessions share a counter store. Oracle: consecutive MsgSeqNum from the stored counter, identifiers, SendingTime syntax and interval, framing. A second engine runs on the real clock (no bubble) with a counter store of real latency and 2-6 senders: a message's SendingTime must not be earlier than the instant its number was requested from the counter store (a time taken before waiting for the session's turn is stale).",
+        level_text="Exploration: 1-8 goroutines x 1-12 sends with generated virtual delays interleave with timer heartbeats, TestRequest answers and Rejects; the injected stores and an outgoing handler yield the processor a generated number of times per call so that a missing critical section reorders numbers on the wire; 1-3 successive sessions share a counter store. Oracle: consecutive MsgSeqNum from the stored counter, identifiers, SendingTime syntax and interval, framing. A second engine runs on the real clock (no bubble) with a counter store of real latency and 2-6 senders: a message's SendingTime must not be earlier than the instant its number was requested from the counter store (a time taken before waiting for the session's turn is stale). A third engine serves 2-3 connections from ONE session.Opts (and optionally one LogonSettings object) with one Save held back inside a store: every message still carries its own session's identifiers and numbers. The session's Location option is drawn.",
         level_note="Trusted: netsim capture, harness/ref, synctest. The harness owns the clock, not the scheduler: interleavings inside one library function are explored by repetition across shards and GOMAXPROCS values only.",
         design_ref="DESIGN.md section 4, C05",
     ),
@@ -114,7 +114,7 @@ TEXT = {
     "C20": dict(
         technique="property-based scenario generation (rapid) executed under the Go race detector (-race build) inside synctest bubbles",
         engine="rapid",
-        level_text="Exploration: generated scenarios make senders, inbound dispatch, both timer goroutines, state queries, handler/event registration and stop/close overlap in virtual time on both roles with the bundled store; the acceptor's logon callback may take virtual time (senders and timers of an earlier logon run meanwhile); every race report is a violation keyed by the pair of library functions.",
+        level_text="Exploration: generated scenarios make senders, inbound dispatch, both timer goroutines, state queries, handler/event registration and stop/close overlap in virtual time on both roles with the bundled store; the acceptor's logon callback may take virtual time (senders and timers of an earlier logon run meanwhile), up to two sibling connections are built concurrently from the same session.Opts; every race report is a violation keyed by the pair of library functions.",
         level_note="Trusted: the Go race detector (executed pairs only), synctest. Goroutines inside a bubble run truly in parallel; the drawn virtual delays decide which activities overlap.",
         design_ref="DESIGN.md section 4, C20",
     ),
